@@ -19,6 +19,7 @@ def run(ctx):
     n = unitspec.convert_from_cells(ctx, 'C06.R1')
     floor(ctx, 'conversion cells', n, 48)
     unitspec.wrappers(ctx, 'C06.R3')
+    unitspec.parse_quantity_forms(ctx, 'C06.R3')      # Unit.convert reads its quantity through parse_quantity
     unitspec.storage_pair(ctx, 'C06.R3', 'C06.R3')
     factories(ctx)
     unitspec.prefix_table(ctx, 'C06.R5')
